@@ -1,62 +1,108 @@
 from excel2pycl.src.context import Context
 from excel2pycl.src.excel import Excel
+from excel2pycl.src.exceptions import E2PyclParserException
 from excel2pycl.src.tokens import ExpressionToken, AmpersandToken, DateControlConstructionToken, \
     TodayControlConstructionToken, EqOperatorToken, NotEqOperatorToken, GtOperatorToken, GtOrEqualOperatorToken, \
-    LtOperatorToken, LtOrEqualOperatorToken, PercentToken, OneLeftOperandExpressionToken
+    LtOperatorToken, LtOrEqualOperatorToken, PercentToken, OneLeftOperandExpressionToken, OperandToken, \
+    OperatorToken, OneOperandArithmeticOperatorToken, BracketStartToken, PlusOperatorToken, MinusOperatorToken, \
+    MultiplicationOperatorToken, DivOperatorToken
 from excel2pycl.src.translators.abstract_translator import AbstractTranslator
 
 
 class ExpressionTokenTranslator(AbstractTranslator):
     _DATE_TOKENS = [DateControlConstructionToken, TodayControlConstructionToken]
 
+    _COMPARE_TOKENS = (EqOperatorToken, NotEqOperatorToken, GtOperatorToken, GtOrEqualOperatorToken,
+                       LtOperatorToken, LtOrEqualOperatorToken)
+
+    # Excel order of binary operators, loosest first: comparisons, &, + -, * /
+    # (unary sign binds tighter than * /, postfix % binds tightest; equal levels associate to the left)
+    _PRECEDENCE = {
+        **{compare_token: 1 for compare_token in _COMPARE_TOKENS},
+        AmpersandToken: 2,
+        PlusOperatorToken: 3, MinusOperatorToken: 3,
+        MultiplicationOperatorToken: 4, DivOperatorToken: 4,
+    }
+
+    _OPERAND, _UNARY, _BINARY, _PERCENT = 'operand', 'unary', 'binary', 'percent'
+
     @classmethod
     def translate(cls, token: ExpressionToken | OneLeftOperandExpressionToken, excel: Excel, context: Context) -> str:
+        # The grammar is right recursive (operand, operator, the whole rest), so the token tree says nothing about
+        # precedence. Flatten it back to the sequence of operands and operators and group that sequence explicitly.
+        items = cls._linearize(token, excel, context)
+        code, position, _ = cls._translate_binary(items, 0, 1)
+        if position != len(items):
+            raise E2PyclParserException('Expression has an incorrect structure')
+
+        return code
+
+    @classmethod
+    def _linearize(cls, token, excel: Excel, context: Context) -> list:
         from excel2pycl.src.translators.operand_token_translator import OperandTokenTranslator
+
+        items = []
+        for part in token.value:
+            if isinstance(part, (ExpressionToken, OneLeftOperandExpressionToken)):
+                if token.value[0].__class__ is BracketStartToken and part is token.value[1]:
+                    items.append((cls._OPERAND, f'({cls.translate(part, excel, context)})'))
+                else:
+                    items += cls._linearize(part, excel, context)
+            elif isinstance(part, OperandToken):
+                items.append((cls._OPERAND, OperandTokenTranslator.translate(part, excel, context)))
+            elif isinstance(part, OneOperandArithmeticOperatorToken):
+                items.append((cls._UNARY, part.operator))
+            elif hasattr(part, 'operator'):
+                operator = part.operator
+                items.append((cls._PERCENT, operator) if operator.__class__ is PercentToken
+                             else (cls._BINARY, operator))
+
+        return items
+
+    @classmethod
+    def _translate_binary(cls, items: list, position: int, min_precedence: int) -> (str, int, bool):
         from excel2pycl.src.translators.operator_sub_token_translator import OperatorSubTokenTranslator
 
-        operator, left_operand, left_brackets, right_brackets, right_operand = token.operator, token.left_operand, \
-            None, None, None
+        left, position, left_is_percent = cls._translate_unary(items, position)
 
-        if isinstance(token, ExpressionToken):
-            left_brackets, right_brackets, right_operand = token.left_brackets, token.right_brackets, \
-                  token.right_operand
+        # a sign that follows an operand is the binary plus or minus
+        while position < len(items) and items[position][0] in (cls._BINARY, cls._UNARY):
+            operator = items[position][1]
+            precedence = cls._PRECEDENCE.get(operator.__class__)
+            if precedence is None:
+                raise E2PyclParserException('Unknown operator in expression')
+            if precedence < min_precedence:
+                break
 
-        if left_operand:
-            token_translator = ExpressionTokenTranslator if \
-                left_operand.__class__ in [ExpressionToken, OneLeftOperandExpressionToken] \
-                else OperandTokenTranslator
+            right, position, _ = cls._translate_binary(items, position + 1, precedence + 1)
 
-            left_operand = token_translator.translate(left_operand, excel, context)
-            left_operand = f'({left_operand})' if left_brackets else left_operand
-
-        if right_operand:
-            token_translator = ExpressionTokenTranslator \
-                if right_operand.__class__ is ExpressionToken else OperandTokenTranslator
-
-            right_operand = token_translator.translate(right_operand, excel, context)
-            right_operand = f'({right_operand})' if right_brackets else right_operand
-
-        if operator:
-            if operator.__class__ is AmpersandToken:
-                left_operand = f'str({left_operand})'
-                right_operand = f'str({right_operand})'
-
-            # попытка заставить сравнение работать так, как надо
-            compare_tokens = (EqOperatorToken, NotEqOperatorToken, GtOperatorToken, GtOrEqualOperatorToken,
-                              LtOperatorToken, LtOrEqualOperatorToken)
-
-            if isinstance(operator, compare_tokens) and left_operand and right_operand:
-                operator = OperatorSubTokenTranslator.translate(operator, excel, context)
-                return f'self._compare("{operator}", {left_operand}, {right_operand})'
-
-            if operator.__class__ is PercentToken:
-                left_operand = f'self._normalize_float_number({left_operand} / 100)'
-                operator = None
+            if isinstance(operator, cls._COMPARE_TOKENS):
+                # попытка заставить сравнение работать так, как надо
+                left = f'self._compare("{OperatorSubTokenTranslator.translate(operator, None, None)}", {left}, {right})'
+            elif operator.__class__ is AmpersandToken:
+                left = f'(str({left})+str({right}))'
             else:
-                operator = OperatorSubTokenTranslator.translate(operator, excel, context)
+                left = f'({left}{OperatorSubTokenTranslator.translate(operator, None, None)}{right})'
+                if left_is_percent:
+                    left = f'self._normalize_float_number{left}'
+            left_is_percent = False
 
-            if isinstance(token.left_operand, OneLeftOperandExpressionToken) and \
-                    isinstance(token.left_operand.operator, PercentToken):
-                return f"self._normalize_float_number({left_operand or ''}{operator or ''}{right_operand or ''})"
+        return left, position, left_is_percent
 
-        return f"{left_operand or ''}{operator or ''}{right_operand or ''}"
+    @classmethod
+    def _translate_unary(cls, items: list, position: int) -> (str, int, bool):
+        from excel2pycl.src.translators.operator_sub_token_translator import OperatorSubTokenTranslator
+
+        if position < len(items) and items[position][0] == cls._UNARY:
+            operand, next_position, _ = cls._translate_unary(items, position + 1)
+            return f'({OperatorSubTokenTranslator.translate(items[position][1], None, None)}{operand})', \
+                next_position, False
+
+        if position >= len(items) or items[position][0] != cls._OPERAND:
+            raise E2PyclParserException('Operand is expected in expression')
+
+        operand, position, is_percent = items[position][1], position + 1, False
+        while position < len(items) and items[position][0] == cls._PERCENT:
+            operand, position, is_percent = f'self._normalize_float_number({operand} / 100)', position + 1, True
+
+        return operand, position, is_percent
